@@ -24,8 +24,9 @@ view == <<P, mode, runD, nops, reduced>>
 Single == {[x \in {r} |-> n] : r \in U, n \in Amts}
 Double == {[x \in {"A", "B"} |-> IF x = "A" THEN a ELSE b] : a \in Amts, b \in Amts}
 Mixed  == {[x \in {"A", "Z"} |-> IF x = "A" THEN 1 ELSE z] : z \in {0, 1}}
-Reqs == IF ReqLevel = 1 THEN {q \in Single \cup Double : \A r \in DOMAIN q : q[r] \in {-1, 0, 1}} \cup Mixed
-        ELSE Single \cup Double \cup Mixed
+Empty == {[x \in {} |-> 0]}                 \* the empty dictionary: reserves / releases nothing
+Reqs == IF ReqLevel = 1 THEN {q \in Single \cup Double : \A r \in DOMAIN q : q[r] \in {-1, 0, 1}} \cup Mixed \cup Empty
+        ELSE Single \cup Double \cup Mixed \cup Empty
 WaitReqs == {q \in Reqs : ~HasNeg(q) /\ \E r \in DOMAIN q : q[r] > 0}
 
 Init == /\ P = InitP /\ mode = "idle" /\ runD = 0 /\ nops = 0
